@@ -9,6 +9,8 @@ from __future__ import annotations
 
 import asyncio
 import copy
+import unicodedata
+import warnings
 import inspect
 import itertools
 import json
@@ -18,16 +20,29 @@ import jinja2.filters as F
 from jinja2.runtime import Undefined
 from markupsafe import Markup, escape
 
+warnings.filterwarnings("ignore", message="coroutine .* was never awaited")
 ALPHA = ["a", "A", "b"]
+NO_ASYNC_VARIANT = "no_async_variant_rejects_async_iterable"
 MODES = ("sync", "async", "async-gen")
 
 _envs = {}
+
+
+def _big(x, limit=0):
+    return x > limit
+
+
+async def _abig(x, limit=0):
+    return x > limit
 
 
 def env_for(mode, autoescape=False):
     key = (mode != "sync", autoescape)
     if key not in _envs:
         e = jinja2.Environment(enable_async=key[0], autoescape=autoescape)
+        # a user test registered through the public API: in the async environment it is a coroutine function (the
+        # compiler awaits test results there: `x is big` works), in the sync environment the same predicate as a function
+        e.tests["big"] = _abig if key[0] else _big
         _envs[key] = (e, e.from_string("").new_context())
     return _envs[key]
 
@@ -161,6 +176,25 @@ def with_modes(cases, modes, gen_sync=False):
             yield w2
 
 
+def with_agen(cases, maxlen=4):
+    """additionally: the async environment with an async generator as input, for the short sequences"""
+    for w in cases:
+        yield w
+        if w.get("mode") == "async" and not w.get("iter") and len(w.get("letters", w.get("vals", ()))) <= maxlen and w.get("n", 0) <= maxlen:
+            w2 = dict(w)
+            w2["mode"] = "async-gen"
+            yield w2
+
+
+def agen_key(oracle, w):
+    """an async iterable handed to a filter without async variant: TypeError / FilterArgumentError"""
+    if w.get("mode") == "async-gen":
+        bad, detail = oracle.run(w)
+        if bad and "'RAISED'" in detail and ("TypeError" in detail or "FilterArgumentError" in detail):
+            return NO_ASYNC_VARIANT
+    return None
+
+
 # ------------------------------------------------------------------------------ slice / batch
 
 def spec_slice(items, s, fill):
@@ -210,11 +244,14 @@ class SliceO(Oracle):
 
 class BatchO(Oracle):
     name = "batch"
-    modes = ("sync", "async")  # batch has no async twin: async generators are not accepted
+    modes = ("sync", "async")
+
+    def key(self, w):
+        return agen_key(self, w) or Oracle.key(self, w)
 
     def cases(self, size):
         base = ({"fn": "batch", "n": n, "linecount": c, "fill": f} for n in range(0, size + 4) for c in range(1, size + 2) for f in (None, "x"))
-        return with_modes(base, self.modes, gen_sync=True)
+        return with_agen(with_modes(base, self.modes, gen_sync=True))
 
     def run(self, w):
         items = list(range(w["n"]))
@@ -278,6 +315,9 @@ def check_sorted(result, ref, keyf, reverse):
 class SortO(Oracle):
     name = "sort"
 
+    def key(self, w):
+        return agen_key(self, w) or Oracle.key(self, w)
+
     def cases(self, size):
         def base():
             for sh in ("str", "dict", "multi"):
@@ -285,7 +325,7 @@ class SortO(Oracle):
                     for cs in (False, True):
                         for rev in (False, True):
                             yield {"fn": "sort", "letters": s, "cs": cs, "reverse": rev, "shape": sh}
-        return with_modes(base(), ("sync", "async"))
+        return with_agen(with_modes(base(), ("sync", "async")))
 
     def items(self, w):
         if w["shape"] == "multi":
@@ -399,9 +439,12 @@ class GroupByO(Oracle):
 class MinMaxO(Oracle):
     name = "minmax"
 
+    def key(self, w):
+        return agen_key(self, w) or Oracle.key(self, w)
+
     def cases(self, size):
         base = ({"fn": f, "letters": s, "cs": cs, "shape": sh} for f in ("min", "max") for sh in ("str", "dict") for s in seqs(ALPHA, size if sh == "str" else min(size, 5)) for cs in (False, True))
-        return with_modes(base, ("sync", "async"))
+        return with_agen(with_modes(base, ("sync", "async")))
 
     def run(self, w):
         items, attr = make_items(w["letters"], w["shape"])
@@ -429,6 +472,14 @@ class SumO(Oracle):
             for s in seqs([[], [1], [2, 3]], min(size, 4)):
                 for start in ([], [9]):
                     yield {"fn": "sum", "vals": s, "start": start, "shape": "lists"}
+            # floats: Python's sum is not a naive left fold (compensated summation since 3.12)
+            for s in seqs([0.1, 1e16, -1e16, 1.0], min(size, 3)):
+                yield {"fn": "sum", "vals": s, "start": 0, "shape": "plain"}
+            yield {"fn": "sum", "vals": [0.1] * 10, "start": 0, "shape": "plain"}
+            yield {"fn": "sum", "vals": [0.1] * 10, "start": 0, "shape": "attr"}
+            # strings: Python's sum refuses them
+            for s in seqs(["a", "b"], 2):
+                yield {"fn": "sum", "vals": s, "start": "", "shape": "plain"}
         return with_modes(base(), self.modes, gen_sync=True)
 
     def run(self, w):
@@ -439,9 +490,10 @@ class SumO(Oracle):
         else:
             items, kwargs = vals, {"start": start}
         got, changed = self.real(w, "sum", items, [], kwargs)
-        want = copy.deepcopy(w["start"])
-        for v in w["vals"]:
-            want = want + v  # Python's sum: start + v0 + v1 + ...
+        try:
+            want = sum(copy.deepcopy(w["vals"]), copy.deepcopy(w["start"]))  # the Python definition: builtins.sum
+        except TypeError:
+            want = ("RAISED", "TypeError")
         return self.verdict(w, got, want, changed, f"{w['vals']!r}|sum(start={w['start']!r}{', attribute=p' if w['shape'] == 'attr' else ''})")
 
     def key(self, w):
@@ -452,6 +504,10 @@ class SumO(Oracle):
                 want = detail.split(" spec=")[1].split(";")[0]
                 if got == want:
                     return "async_sum_extends_list_start_in_place"
+        if w.get("mode") != "sync" and (w.get("start") == "" or any(isinstance(v, float) for v in w.get("vals", []))):
+            bad, detail = self.run(w)
+            if bad and "modified" not in detail:
+                return "async_sum_is_a_naive_fold_not_builtin_sum"
         return Oracle.key(self, w)
 
 
@@ -524,7 +580,13 @@ class ListReverseO(Oracle):
                 yield {"fn": "reverse", "letters": s, "as": "list", "iter": True}
                 yield {"fn": "list", "letters": s, "as": "list", "iter": True}
             yield {"fn": "reverse", "letters": [], "as": "int"}
-        return with_modes(base(), ("sync", "async"))
+        for w in with_modes(base(), ("sync", "async")):
+            yield w
+            if w["fn"] == "reverse" and w["as"] == "list" and w["mode"] == "async" and not w.get("iter") and len(w["letters"]) <= 4:
+                yield dict(w, mode="async-gen")
+
+    def key(self, w):
+        return agen_key(self, w) or Oracle.key(self, w)
 
     def run(self, w):
         if w["as"] == "int":
@@ -565,6 +627,13 @@ class MapSelectO(Oracle):
                 for f in ("selectattr", "rejectattr"):
                     yield {"fn": f, "vals": s, "args": ["k"], "kwargs": {}, "dicts": True}
                     yield {"fn": f, "vals": s, "args": ["k", "equalto", "a"], "kwargs": {}, "dicts": True}
+            # a user test that is a coroutine function in the async environment (awaited by the compiler for `x is big`)
+            for s in seqs([0, 1, 2], min(size, 4)):
+                for f in ("select", "reject"):
+                    yield {"fn": f, "vals": s, "args": ["big"], "kwargs": {}}
+                    yield {"fn": f, "vals": s, "args": ["big", 1], "kwargs": {}}
+                for f in ("selectattr", "rejectattr"):
+                    yield {"fn": f, "vals": s, "args": ["k", "big"], "kwargs": {}, "dicts": True}
             yield {"fn": "map", "vals": ["a"], "args": [], "kwargs": {}}
             yield {"fn": "map", "vals": ["a"], "args": [], "kwargs": {"attribute": "k", "bogus": 1}, "dicts": True}
             yield {"fn": "selectattr", "vals": [1], "args": [], "kwargs": {}}
@@ -575,7 +644,14 @@ class MapSelectO(Oracle):
             return [({"k": v, "i": i} if v is not None else {"i": i}) for i, v in enumerate(w["vals"])]
         return list(w["vals"])
 
-    TESTS = {"equalto": lambda v, o: v == o, "string": lambda v: isinstance(v, str)}
+    TESTS = {"equalto": lambda v, o: v == o, "string": lambda v: isinstance(v, str), "big": lambda v, limit=0: v > limit}
+
+    def key(self, w):
+        if "big" in w.get("args", []) and w.get("mode") != "sync":
+            bad, _ = self.run(w)
+            if bad:
+                return "async_test_result_not_awaited"
+        return Oracle.key(self, w)
 
     def run(self, w):
         items = self.build(w)
@@ -616,7 +692,8 @@ def spec_parse(attr):
     parts, cur = [], ""
     for ch in attr + ".":
         if ch == ".":
-            parts.append(int(cur) if cur and all(c in "0123456789" for c in cur) else cur)
+            # an integer part: a non-empty run of decimal digit characters (what int() accepts)
+            parts.append(int(cur) if cur and all(unicodedata.decimal(c, None) is not None for c in cur) else cur)
             cur = ""
         else:
             cur += ch
@@ -626,10 +703,16 @@ def spec_parse(attr):
 class AttrPartsO(Oracle):
     """make_attrgetter / make_multi_attrgetter: which environment.getitem lookups are made for an attribute string"""
     name = "attrparts"
-    CH = ["a", "1", ".", ","]
+    CH = ["a", "1", ".", ",", "\u00b2", "\u0663"]  # SUPERSCRIPT TWO is a digit but no decimal; ARABIC-INDIC THREE is a decimal
+
+    def key(self, w):
+        a = w.get("attr")
+        if isinstance(a, str) and any(p.isdigit() and not p.isdecimal() for q in a.split(",") for p in q.split(".")):
+            return "attribute_part_isdigit_but_not_decimal"
+        return Oracle.key(self, w)
 
     def cases(self, size):
-        for n in range(0, min(size, 6) + 1):
+        for n in range(0, min(size, 5) + 1):
             for t in itertools.product(self.CH, repeat=n):
                 yield {"fn": "attrparts", "attr": "".join(t)}
         for a in (None, 0, 7):
@@ -645,6 +728,12 @@ class AttrPartsO(Oracle):
 
         env, attr = Env(), w["attr"]
         item = object()
+        try:
+            return self._run(env, attr, item, log)
+        except Exception as ex:  # noqa
+            return True, f"make_attrgetter / make_multi_attrgetter(env, {attr!r}) raised {type(ex).__name__}: {ex}"
+
+    def _run(self, env, attr, item, log):
         if not (isinstance(attr, str) and "," in attr):
             got = F.make_attrgetter(env, attr)(item)
             want = [] if attr is None else ([attr] if not isinstance(attr, str) else spec_parse(attr))
